@@ -141,3 +141,158 @@ def oracle_pair(line, out):
                 if (r[0], q[0]) not in paired:
                     return f"mutual nearest labels r{r} q{q} not paired"
     return None
+
+
+# ------------------------------------------------------------------ C16
+def oracle_vec(line, out):
+    op, kv = kv_of(line)
+    res, start = int(kv["res"]), int(kv["start"])
+    pos = ints(kv.get("POS", ""))
+    stop = None if kv["stop"] == "none" else int(kv["stop"])
+    if res < 1:
+        return None if out == "ERR ValueError" else "resolution < 1 accepted"
+    if not stop and not pos:
+        return None if out == "ERR IndexError" else None  # no labels and no end: nothing to encode
+    if out.startswith("ERR"):
+        return f"exception {out}"
+    stop_eff = stop if stop else pos[-1]
+    bits = [int(c) for c in out]
+    for i, b in enumerate(bits):
+        lo, hi = start + i * res, start + (i + 1) * res
+        want = 1 if any(lo <= p < hi for p in pos) else 0
+        if b != want:
+            return f"bit {i} is {b}, labels in [{lo},{hi}) say {want}"
+    for p in pos:
+        if start <= p <= stop_eff and (p - start) // res >= len(bits):
+            return f"label {p} in [start,end] has no bin (vector length {len(bits)})"
+    if pos:
+        lim = (max(stop_eff, pos[-1]) - start) // res + 1
+        if len(bits) > max(lim, 0):
+            return f"vector longer ({len(bits)}) than the bin of max(end,last label) ({lim})"
+    return None
+
+
+def oracle_blur(line, out):
+    op, kv = kv_of(line)
+    v = [int(c) for c in kv.get("V", "")]
+    r = int(kv["radius"])
+    if r < 0:
+        return None if out == "ERR ValueError" else "negative radius accepted"
+    if out.startswith("ERR"):
+        return f"exception {out}"
+    w = [int(c) for c in out]
+    if len(w) != len(v):
+        return "blur changed the length"
+    for i in range(len(v)):
+        want = 1 if any(v[j] for j in range(max(0, i - r), min(len(v), i + r + 1))) else 0
+        if w[i] != want:
+            return f"blurred bit {i} is {w[i]}, expected {want}"
+    return None
+
+
+def oracle_tobp(line, out):
+    op, kv = kv_of(line)
+    b, res, start = int(kv["bin"]), int(kv["res"]), int(kv["start"])
+    x = int(out)
+    lo, hi = start + b * res, start + (b + 1) * res
+    if not (lo <= x < hi):
+        return f"bin {b} maps to {x} outside [{lo},{hi})"
+    if 2 * (x - lo) > res or 2 * (hi - 1 - x) > res:
+        return f"bin {b} maps to {x}, more than half a resolution from an end of [{lo},{hi})"
+    return None
+
+
+def oracle_select(line, out):
+    op, kv = kv_of(line)
+    sc, count = ints(kv.get("S", "")), int(kv["count"])
+    idx = ints(out)
+    if len(idx) != min(max(count, 0), len(sc)) or len(set(idx)) != len(idx):
+        return "wrong number of seeds kept"
+    chosen = [sc[i] for i in idx]
+    if any(a < b for a, b in zip(chosen, chosen[1:])):
+        return "seeds not in descending score order"
+    rest = [sc[i] for i in range(len(sc)) if i not in idx]
+    if chosen and rest and max(rest) > min(chosen):
+        return "a dropped peak scores higher than a kept one"
+    return None
+
+
+# ------------------------------------------------------------------ C05 (FILTER)
+def oracle_filter(line, out):
+    op, kv = kv_of(line)
+    rows = [tuple(int(x) for x in t.split(":")) for t in kv.get("ROWS", "").split(",") if t]
+    idx = ints(out)
+    qids = [rows[i][0] for i in idx]
+    if qids != sorted(set(r[0] for r in rows)):
+        return "not exactly one row per query id in ascending id order"
+    for i in idx:
+        q, c = rows[i]
+        best = max(cc for qq, cc in rows if qq == q)
+        if c != best:
+            return f"query {q}: kept confidence {c}, best is {best}"
+        first = next(j for j, (qq, cc) in enumerate(rows) if qq == q and cc == best)
+        if i != first:
+            return f"query {q}: tie not broken by first occurrence"
+    return None
+
+
+# ------------------------------------------------------------------ C03
+def is_valid_matching(pairs, rev):
+    for a, b in zip(pairs, pairs[1:]):
+        if not (a[0] < b[0] and ((b[1] < a[1]) if rev else (a[1] < b[1]))):
+            return False
+    return True
+
+
+def parse_cigar(s):
+    import re
+    if not re.fullmatch(r"(\d+[MDI])*", s):
+        return None
+    return [(int(n), c) for n, c in re.findall(r"(\d+)([MDI])", s)]
+
+
+def replay_cigar(runs, first, rev):
+    r, q = first
+    out = []
+    started = False
+    for n, c in runs:
+        for _ in range(n):
+            if c == "M":
+                if not started:
+                    started = True
+                else:
+                    r += 1
+                    q += -1 if rev else 1
+                out.append((r, q))
+            elif c == "D":
+                r += 1
+            else:
+                q += -1 if rev else 1
+    return out
+
+
+def oracle_cigar_pairs(pairs, rev, cig):
+    if not pairs:
+        return None
+    if not is_valid_matching(pairs, rev):
+        return None  # property speaks about valid matchings only
+    if cig.startswith("ERR"):
+        return f"exception {cig} on a valid matching"
+    runs = parse_cigar(cig)
+    if runs is None:
+        return f"malformed HitEnum {cig!r}"
+    if not runs:
+        return "empty HitEnum for a record with a pair"
+    if runs[0][1] != "M" or runs[-1][1] != "M":
+        return f"HitEnum {cig} does not start and end with M"
+    if any(a[1] == b[1] for a, b in zip(runs, runs[1:])) or any(n < 1 for n, _ in runs):
+        return f"HitEnum {cig} repeats an operation in adjacent runs"
+    if replay_cigar(runs, pairs[0], rev) != pairs:
+        return f"replaying {cig} from {pairs[0]} does not give the listed pairs"
+    return None
+
+
+def oracle_cigar(line, out):
+    op, kv = kv_of(line)
+    pairs = [tuple(int(x) for x in t.split(":")) for t in kv.get("P", "").split(",") if t]
+    return oracle_cigar_pairs(pairs, kv["rev"] == "1", out)
